@@ -11,10 +11,10 @@ def _gens(quick_num, thorough_num):
         out = []
         for i, x in enumerate("ABCDE"):
             out.append(dict(mode="sim", spec="NodeGen.tla", cfg="NodeGenSim%s.cfg" % x, depth=depth, num=n,
-                            max=(12 if q else 300), salt=i, name="walks" + x, timeout=900))
+                            max=(12 if q else 200), salt=i, name="walks" + x, timeout=900))
         # edge cover of the focused models (deletion histories / pin histories) with the past abstracted in the VIEW
         for x, mode, d in (("E", "del", 7), ("B", "del", 7), ("A", "pin", 5), ("E", "pin", 5)):
-            out.append(dict(mode="edges", spec="NodeGen.tla", cfg="NodeGenFocus%s.cfg" % x, depth=d, max=(55 if q else 1200),
+            out.append(dict(mode="edges", spec="NodeGen.tla", cfg="NodeGenFocus%s.cfg" % x, depth=d, max=(55 if q else 600),
                             name="%s-edges%s" % (mode, x), env={"VERIF_NODEMODE": mode}, timeout=1500))
         return out
     return dict(quick=g("quick"), thorough=g("thorough"))
@@ -98,7 +98,7 @@ _COMMON = dict(
             dict(spec="MCNodeQ.tla", cfg="MCNodeQ.cfg", workers=8, timeout=1500, thorough_only=True, coverage=False),
             dict(spec="MCNode.tla", cfg="MCNode.cfg", workers=12, timeout=3000, thorough_only=True, coverage=False)],
     gen=_gens(6, 50),
-    driver_timeout=2400,
+    driver_timeout=5400,
     exhaustive=dict(quick=False, thorough=False),
     technique="TLA+ node-storage model (Node.tla) model-checked by TLC; TLC random walks over the model generate API-level "
               "histories; executed on a real two-node in-process wiring (localstore+chunkinfo+pinning+netstore+retrieval+api); "
